@@ -42,8 +42,10 @@ def oracle(ctx, tr):
             for c in L.cred_cbs(r):
                 name = c[:c.index("(")]
                 res = st["env"].get(CB_ENV[name])
-                if res == 0:
+                if res == 0 and L.gss_evidence(st, r, name):
                     approving.append((name, c))
+                elif res == 0:
+                    ctx.dist("gss-approval-without-mic-check")
             if not approving:
                 consulted = [c[:c.index("(")] for c in L.cred_cbs(r)]
                 ctx.fail("success-without-approval:" + (",".join(consulted) or "no-callback"), case,
@@ -80,6 +82,9 @@ def oracle(ctx, tr):
                             "probe" if not meta.get("attached") else meta.get("sigkind")), case,
                             "authenticated by a request whose signature the harness did not make over this "
                             "session's blob (%s)" % meta.get("sigkind"))
+        if any(m == b"\x34" for m in sent) and any(m[:1] == b"\x33" for m in sent):
+            ctx.fail("failure-and-success-for-one-request", L.describe(tr, i),
+                     "sent %r" % [m.hex()[:20] for m in sent])
         if st["meta"].get("sigkind"):
             ctx.dist("sig:" + st["meta"]["sigkind"] + ("+approved-key" if st["env"].get("r_pubkey") == 0 else ""))
         if st["meta"].get("attached") is False and st["env"].get("r_pubkey") == 0 and st["meta"].get("key_ok"):
